@@ -5,6 +5,8 @@
 //   ops (space separated):  n:<hex> new slice | m:<h>:<hex> overwrite slice h | p:<key>:<h> Put
 //           s:<key>:<h,h..> PutStream+Write*+commit | v:<key>:<h,h..> PutVec | g:<key> Get
 //           r:<key> GetStream (drained) | k:<key> Peek | h:<key> Has        (keys in hex)
+//           o: PutStream kept open (streams are numbered from 0) | w:<sid>:<h> Write slice h to stream sid
+//           c:<sid>:<key> commit stream sid under key
 //   observation: one token per op:  - | ok | e:<errno> | b:<hex> | se:<errno> | t | f | unsup | badh | panic
 //           for fs every token whose operation changed the tree is followed by "#<listing>", and the
 //           first token is "init#<listing>": the listing is of the WHOLE fresh parent directory.
@@ -13,6 +15,7 @@ package main
 import (
 	"bytes"
 	"context"
+	"crypto/sha256"
 	"fmt"
 	"io"
 	"os"
@@ -40,6 +43,7 @@ type backend interface {
 	getStream(key string) (io.ReadCloser, error, bool)
 	peek(key string) ([]byte, error, bool)
 	has(key string) (bool, error, bool)
+	open() (io.Writer, func(key string) error, error)
 }
 
 type storageBackend struct {
@@ -61,6 +65,22 @@ func (s storageBackend) putStream(key string, bs [][]byte) error {
 		}
 	}
 	return commit(key)
+}
+func (s storageBackend) open() (io.Writer, func(string) error, error) {
+	return storage.PutStream(ctx, s.st)
+}
+func (m memoryBackend) open() (io.Writer, func(string) error, error) {
+	w, commit, err := m.st.OpenWrite(linking.LinkContext{Ctx: ctx})
+	if err != nil {
+		return nil, nil, err
+	}
+	return w, func(key string) error {
+		lnk, ok := linkOf(key)
+		if !ok {
+			return &lib.PanicError{Msg: "not a cid"}
+		}
+		return commit(lnk)
+	}, nil
 }
 func (s storageBackend) putVec(key string, bs [][]byte) (error, bool) {
 	return storage.PutVec(ctx, s.st, key, bs), true
@@ -124,6 +144,11 @@ func (m memoryBackend) getStream(key string) (io.ReadCloser, error, bool) { retu
 func (m memoryBackend) peek(key string) ([]byte, error, bool)             { return nil, nil, false }
 func (m memoryBackend) has(key string) (bool, error, bool)                { return false, nil, false }
 
+type stream struct {
+	w      io.Writer
+	commit func(string) error
+}
+
 func errTok(err error) string { return "e:" + lib.StoreErrClass(err) }
 
 func putTok(err error) string {
@@ -152,6 +177,7 @@ func parseHandles(s string) []int {
 // Returns the ops actually run (ops refused by the sandbox guard are dropped) and the observation.
 func runOps(be backend, ops []string, guard func(key string) bool, listing func() string) ([]string, string) {
 	var bufs [][]byte
+	var streams []*stream
 	var ran, obs []string
 	last := ""
 	emit := func(tok string) {
@@ -182,7 +208,12 @@ func runOps(be backend, ops []string, guard func(key string) bool, listing func(
 			continue
 		}
 		key := ""
-		if f[0] != "n" && f[0] != "m" {
+		if f[0] == "c" && len(f) >= 3 {
+			key = lib.UnHex(f[2])
+			if key != "" && guard != nil && !guard(key) {
+				continue
+			}
+		} else if f[0] != "n" && f[0] != "m" && f[0] != "o" && f[0] != "w" {
 			key = lib.UnHex(f[1])
 			if guard != nil && !guard(key) {
 				continue
@@ -270,6 +301,35 @@ func runOps(be backend, ops []string, guard func(key string) bool, listing func(
 					tok = "t"
 				} else {
 					tok = "f"
+				}
+			case "o":
+				w, commit, err := be.open()
+				if err != nil {
+					streams = append(streams, nil)
+					tok = putTok(err)
+				} else {
+					streams = append(streams, &stream{w, commit})
+					tok = "ok"
+				}
+			case "w":
+				sid, _ := strconv.Atoi(f[1])
+				h, _ := strconv.Atoi(f[2])
+				if sid < 0 || sid >= len(streams) || h < 0 || h >= len(bufs) {
+					tok = "badh"
+				} else if streams[sid] == nil {
+					tok = "e:eother"
+				} else {
+					_, err := streams[sid].w.Write(bufs[h])
+					tok = putTok(err)
+				}
+			case "c":
+				sid, _ := strconv.Atoi(f[1])
+				if sid < 0 || sid >= len(streams) {
+					tok = "badh"
+				} else if streams[sid] == nil {
+					tok = "e:eother"
+				} else {
+					tok = putTok(lib.Safely(func() error { return streams[sid].commit(key) }))
 				}
 			default:
 				tok = "badop"
@@ -362,6 +422,16 @@ func (g *gen) keySet() ([]string, map[string]string) {
 	}
 	for len(keys) < n {
 		switch {
+		case g.store == "cidmem" && r.Chance(20):
+			// links that share their digest bytes but not the hash function
+			x := "blk:" + lib.Hex(r.BytesN(1+r.Intn(8)))
+			sum := sha256.Sum256([]byte(x))
+			d := string(sum[:])
+			add(lib.RealCid(1, 0x55, 0x12, x), x)
+			add(lib.RealCid(1, 0x55, 0x00, d), d)
+			if r.Bool() {
+				add(lib.SyntheticCid(0x55, []uint64{0x16, 0xb220, 0x1b}[r.Intn(3)], d), "labelled:"+lib.Hex(d[:4]))
+			}
 		case g.store == "cidmem" || r.Chance(35):
 			k, c := g.cidKey()
 			add(k, c)
@@ -461,6 +531,59 @@ func (g *gen) history() []string {
 			}
 		}
 	}
+	// two or three streams open at the same time: writes interleaved, commits in any order
+	nstreams := 0
+	interleave := func() {
+		ns := 2 + r.Intn(2)
+		type st struct {
+			sid    int
+			key    string
+			chunks []int
+			next   int
+		}
+		var open []*st
+		for i := 0; i < ns; i++ {
+			k := keys[r.Intn(len(keys))]
+			c := content[k]
+			ops = append(ops, "o:")
+			s := &st{sid: nstreams, key: k}
+			nstreams++
+			cut1, cut2 := r.Intn(len(c)+1), r.Intn(len(c)+1)
+			if cut1 > cut2 {
+				cut1, cut2 = cut2, cut1
+			}
+			for _, part := range []string{c[:cut1], c[cut1:cut2], c[cut2:]} {
+				s.chunks = append(s.chunks, newBuf(part))
+			}
+			open = append(open, s)
+			present[k] = true
+		}
+		for len(open) > 0 {
+			i := r.Intn(len(open))
+			s := open[i]
+			if s.next < len(s.chunks) {
+				ops = append(ops, fmt.Sprintf("w:%d:%d", s.sid, s.chunks[s.next]))
+				s.next++
+				if r.Chance(25) { // scribble over the chunk just written
+					ops = append(ops, fmt.Sprintf("m:%d:%s", s.chunks[s.next-1], lib.Hex(r.BytesN(4))))
+				}
+				if r.Chance(20) {
+					k := keys[r.Intn(len(keys))]
+					ops = append(ops, []string{"h:", "r:"}[r.Intn(2)]+lib.Hex(k))
+				}
+				continue
+			}
+			if g.store == "fs" && r.Chance(12) {
+				ops = append(ops, fmt.Sprintf("c:%d:", s.sid)) // abort
+			} else {
+				ops = append(ops, fmt.Sprintf("c:%d:%s", s.sid, lib.Hex(s.key)))
+			}
+			open = append(open[:i], open[i+1:]...)
+		}
+	}
+	if r.Chance(45) {
+		interleave()
+	}
 	// read everything back at the end
 	for _, k := range keys {
 		kh := lib.Hex(k)
@@ -538,6 +661,40 @@ func corpus(out *lib.Out) {
 		kid := lib.Hex(lib.RealCid(1, 0x55, 0x00, blk))
 		runCase(out, next(), "cidmem", "-", []string{"n:" + b, "n:", "g:" + k0, "p:" + k0 + ":0", "g:" + k0, "g:" + k1,
 			"s:" + kid + ":1,0,1", "g:" + kid, "s:" + k1 + ":0", "g:" + k1})
+	}
+	// two streams open at once on one store: open A, open B, write A, write B, commit A, commit B
+	ka, kb := lib.Hex("streamkey-A"), lib.Hex("streamkey-B")
+	two := []string{"n:" + lib.Hex("AAAA-first-"), "n:" + lib.Hex("BBBBBB-second-"), "n:" + lib.Hex("tail"),
+		"o:", "o:", "w:0:0", "w:1:1", "w:0:2", "w:1:2", "c:0:" + ka, "c:1:" + kb,
+		"g:" + ka, "g:" + kb, "h:" + ka, "r:" + kb,
+		// commits in the other order, a third stream aborted / left open
+		"o:", "o:", "o:", "w:4:1", "w:2:0", "w:3:2", "w:2:0", "c:3:" + lib.Hex("streamkey-C"), "c:2:" + lib.Hex("streamkey-D"),
+		"g:" + lib.Hex("streamkey-C"), "g:" + lib.Hex("streamkey-D"), "g:" + ka}
+	for _, sh := range []string{"r12", "r122", "r133"} {
+		runCase(out, next(), "fs", sh, append(append([]string{}, two...), "c:4:", "h:"+kb, "g:"+kb))
+	}
+	runCase(out, next(), "mem", "-", append(append([]string{}, two...), "c:2:"+ka, "w:2:1", "g:"+lib.Hex("streamkey-D")))
+	{
+		// cidlink.Memory: streams under the CIDs of their contents
+		a, b := "AAAA-first-tail", "BBBBBB-second-tail"
+		ca, cb := lib.Hex(lib.RealCid(1, 0x71, 0x12, a)), lib.Hex(lib.RealCid(1, 0x55, 0x12, b))
+		runCase(out, next(), "cidmem", "-", []string{"n:" + lib.Hex("AAAA-first-"), "n:" + lib.Hex("BBBBBB-second-"), "n:" + lib.Hex("tail"),
+			"o:", "o:", "w:0:0", "w:1:1", "w:0:2", "w:1:2", "c:1:" + cb, "c:0:" + ca, "g:" + ca, "g:" + cb})
+	}
+	// cidlink.Memory keys by the WHOLE multihash: links that share digest bytes but not the hash function are different keys
+	{
+		x := "CONTENT"
+		sum := sha256.Sum256([]byte(x))
+		d := string(sum[:])
+		k1 := lib.Hex(lib.RealCid(1, 0x55, 0x12, x))            // sha2-256 of x
+		k2 := lib.Hex(lib.RealCid(1, 0x55, 0x00, d))            // identity "hash" of the 32-byte block d = sha2-256(x)
+		k3 := lib.Hex(lib.SyntheticCid(0x55, 0x16, d))          // the same 32 bytes labelled sha3-256
+		k4 := lib.Hex(lib.SyntheticCid(0x71, 0xb220, d))        // ... labelled blake2b-256, dag-cbor
+		k5 := lib.Hex(lib.RealCid(1, 0x71, 0x12, x))            // same multihash as k1, other codec: documented aliasing
+		runCase(out, next(), "cidmem", "-", []string{"n:" + lib.Hex(x), "n:" + lib.Hex(d), "n:" + lib.Hex("labelled-sha3"), "n:" + lib.Hex("labelled-blake2b"),
+			"g:" + k2, "p:" + k1 + ":0", "g:" + k1, "g:" + k2, "g:" + k3, "g:" + k4, "g:" + k5,
+			"p:" + k2 + ":1", "g:" + k1, "g:" + k2, "g:" + k3,
+			"p:" + k3 + ":2", "s:" + k4 + ":3", "g:" + k1, "g:" + k2, "g:" + k3, "g:" + k4, "g:" + k5})
 	}
 	// long keys sharing a long prefix: never one answering for the other
 	for _, sh := range []string{"r12", "r122", "r133"} {
